@@ -41,6 +41,10 @@ pub enum Mut {
     /// append this many copies of the last (L, R) pair (round counts at and beyond the machine word size)
     AppendRounds(usize),
     ExtTag(u8),
+    /// the proof re-encoded under the next higher extension degree with one more response scalar appended
+    DegreeUp,
+    /// ... under the next lower degree with the last response scalar removed
+    DegreeDown,
 }
 
 pub const UNDECODABLE: [u8; 32] = [0xff; 32];
@@ -151,6 +155,12 @@ pub fn menu(p: &RefProof, reduced: bool) -> Vec<Mut> {
             }
         }
     }
+    if p.ext < 6 {
+        out.push(Mut::DegreeUp);
+    }
+    if p.ext > 1 {
+        out.push(Mut::DegreeDown);
+    }
     // every other value of the degree byte (a decoder that reduces the byte, masks it or indexes a table with it aliases some)
     for t in 0..=255u8 {
         if t != p.ext {
@@ -242,6 +252,14 @@ pub fn apply<P: G>(p: &RefProof, m: &Mut, h: &P) -> Option<Vec<u8>> {
             let r = *q.r.last().unwrap();
             q.l.push(l);
             q.r.push(r);
+        },
+        Mut::DegreeUp => {
+            q.ext += 1;
+            q.d1.push(Scalar::from(5u8));
+        },
+        Mut::DegreeDown => {
+            q.ext -= 1;
+            q.d1.pop();
         },
         Mut::AppendRounds(k) => {
             let l = *q.l.last()?;
